@@ -3,7 +3,7 @@ from pyvc.api import *
 from contracts.graph import G, M, N, SHAPES, SHAPES_IFACE, install_graph_models
 
 IFACE = "liesel/goose/interface.py"
-STRONG = {"hier": ["tau", "mu", "y"], "diamond": ["a", "y"], "flat": ["b", "c", "y"], "direct": ["b", "c", "y"], "weakdist": ["a", "b"], "weakdist_deep": ["a", "b"], "transformed": ["p", "x_transformed"]}
+STRONG = {"hier": ["tau", "mu", "y"], "diamond": ["a", "y"], "flat": ["b", "c", "y"], "direct": ["b", "c", "y"], "weakdist": ["a", "b"], "weakdist_deep": ["a", "b"], "transformed": ["p", "x_transformed"], "optional": ["b", "y", "off"], "pit": ["mu", "y"]}
 
 
 def simple_iface_unit(cls, uid=None, prop="C03"):
@@ -16,6 +16,8 @@ def simple_iface_unit(cls, uid=None, prop="C03"):
         lp = PyFn(lambda ip_, st: ip_.uf("user_log_prob", ip_.to_U(st)), "log_prob_fn")
         iface = ip.call(ip.repo(f"{IFACE}::{cls}"), [lp], {})
         vals = {k: z3.Const(f"s_{k}", U) for k in ("a", "b", "c")}
+        e_dict = {"u": z3.Const("s_e_u", U), "v": z3.Const("s_e_v", U)}
+        vals["e"] = e_dict  # an entry whose value is a (mutable) dict of arrays
         if cls == "DataclassInterface":
             vals["d"] = z3.Const("s_d", U)  # a field declared with field(init=False) that currently holds another value than its default
         if cls == "DictInterface":
@@ -24,20 +26,32 @@ def simple_iface_unit(cls, uid=None, prop="C03"):
         else:
             st_cls = Obj("StateClass")  # user-defined record type (dataclass / named tuple instance)
             state = Obj("StateRecord", dict(vals))
-            state.dc = {"init": ["a", "b", "c"], "noinit": {"d": z3.Const("constructor_time_d", U)}}
+            state.dc = {"init": ["a", "b", "c", "e"], "noinit": {"d": z3.Const("constructor_time_d", U)}}
             read = lambda st, k: st.f[k]  # noqa: E731
             if cls == "NamedTupleInterface":
                 state = PyObj("nt_state", **vals)
                 state.attrs["_replace"] = PyFn(lambda ip_, **kw: PyObj("nt_state", **{**{k: v for k, v in state.attrs.items() if k != "_replace"}, **kw}), "_replace")
                 read = lambda st, k: st.attrs[k]  # noqa: E731
         pos = {"c": z3.Const("p_c", U), "a": z3.Const("p_a", U)}
+        if cls != "DictInterface":
+            # a position value that is itself a record (a nested dataclass instance registered as a pytree): it must come back AS THAT OBJECT
+            nested = Obj("ParamsRecord", {"loc": z3.Const("p_loc", U), "scale": z3.Const("p_scale", U)})
+            nested.dc = {"init": ["loc", "scale"], "noinit": {}}
+            pos["c"] = nested
         snapshot = dict(vals)
         new = ip.call(method(ip, iface, "update_state"), [dict(pos), state], {})
         c.oblige("input_state_not_modified", all(read(state, k) is snapshot[k] for k in snapshot))
         c.oblige("returns_new_object", new is not state)
+        # a position that assigns a dict to the dict-valued entry: direct assignment REPLACES the entry; the input state's dict keeps its contents
+        e_new = {"u": z3.Const("p_e_u", U)}
+        new_e = ip.call(method(ip, iface, "update_state"), [{"e": e_new}, state], {})
+        c.oblige("dict_valued_entry_of_input_state_not_modified", read(state, "e") is e_dict and list(e_dict) == ["u", "v"] and e_dict["u"].eq(z3.Const("s_e_u", U)) and e_dict["v"].eq(z3.Const("s_e_v", U)))
+        got_e = read(new_e, "e")
+        c.oblige("dict_valued_entry_is_replaced_as_by_direct_assignment", isinstance(got_e, dict) and list(got_e) == ["u"] and got_e["u"].eq(z3.Const("p_e_u", U)))
         got = ip.call(method(ip, iface, "extract_position"), [["a", "c"], new], {})
-        c.oblige("put_get", isinstance(got, dict) and list(got) == ["a", "c"] and got["a"].eq(pos["a"]) and got["c"].eq(pos["c"]))
-        c.oblige("other_fields_kept", all(read(new, k).eq(vals[k]) for k in vals if k not in pos))
+        same = lambda a_, b_: a_ is b_ or (is_z3(a_) and is_z3(b_) and a_.eq(b_))  # noqa: E731
+        c.oblige("put_get", isinstance(got, dict) and list(got) == ["a", "c"] and same(got["a"], pos["a"]) and same(got["c"], pos["c"]))
+        c.oblige("other_fields_kept", all(read(new, k) is vals[k] or (is_z3(vals[k]) and read(new, k).eq(vals[k])) for k in vals if k not in pos))
         got0 = ip.call(method(ip, iface, "extract_position"), [["b", "a"], state], {})
         c.oblige("extract_reads_state", list(got0) == ["b", "a"] and got0["b"].eq(vals["b"]) and got0["a"].eq(vals["a"]))
         # a position is a PLAIN dict: JAX flattens plain dicts in sorted-key order - the order in which the tuning code lays out the inverse
@@ -62,7 +76,17 @@ def expect_transformed(ip, r2, p2):
     return [("original_variable_is_bijector_image_at_the_state_s_parameter", is_z3(x) and x.eq(ip.uf("fwd_default_D", P, T)))]
 
 
-EXPECT = {"transformed": expect_transformed}
+def expect_pit(ip, r2, p2):
+    """spec for shape 'pit', written from the model definition: u = cdf of Lik(mu) at y, at the position's mu and y; its density is Du's at that u"""
+    MU, Y = p2["mu"], p2["y_value"]
+    u = r2["y_pit_value"].f["value"]
+    want_u = ip.uf("cdf_Lik", MU, Y)
+    lp = r2["y_pit_log_prob"].f["value"]
+    return [("pit_value_is_cdf_at_the_state_s_values", is_z3(u) and u.eq(want_u)),
+            ("pit_density_evaluated_at_that_value", is_z3(lp) and ip.to_U(lp).eq(ip.uf("logp_Du", want_u)))]
+
+
+EXPECT = {"transformed": expect_transformed, "pit": expect_pit}
 
 
 def liesel_unit(shape, rel=IFACE, cls="LieselInterface", auto_update=True, uid=None, prop="C03", single_key=False):
@@ -124,7 +148,7 @@ def liesel_unit(shape, rel=IFACE, cls="LieselInterface", auto_update=True, uid=N
             # ... and the state an INDEPENDENT evaluator computes from the assigned values (the reference model above runs the code under test)
             from contracts.c01 import from_scratch, same_value
             fs = from_scratch(ip, ref, {"on": False, "n": {}})
-            stale = [k for k in r2 if k in ref.f["_nodes"] and ref.f["_nodes"][k].clsname in ("Value", "Data", "Calc", "Dist") and not (same_value(ip, r2[k].f["value"], fs[id(ref.f["_nodes"][k])]) or isinstance(fs[id(ref.f["_nodes"][k])], float))]
+            stale = [k for k in r2 if k in ref.f["_nodes"] and ref.f["_nodes"][k].clsname in ("Value", "Data", "Calc", "Dist", "PITCalc") and not (same_value(ip, r2[k].f["value"], fs[id(ref.f["_nodes"][k])]) or isinstance(fs[id(ref.f["_nodes"][k])], float))]
             c.oblige("every_node_holds_its_from_scratch_value", not stale, stale=str(stale))
         if same_keys and shape in EXPECT and not single_key:
             for nm_, ok_ in EXPECT[shape](ip, r2, p2):
@@ -141,6 +165,8 @@ def liesel_unit(shape, rel=IFACE, cls="LieselInterface", auto_update=True, uid=N
 
 for _s in SHAPES:
     liesel_unit(_s)
+liesel_unit("pit")  # a caching node class outside the Calc / Dist hierarchy
+liesel_unit("optional")  # a variable whose value is None (a legitimate value) next to cached calculations: restored like every other entry
 liesel_unit("direct")  # position keyed by VARIABLE name for a variable whose value node has a direct consumer
 liesel_unit("direct", auto_update=False)
 liesel_unit("transformed")  # default bijector depending on a model variable: functions are shared between the user's model and the private copy
@@ -178,3 +204,9 @@ def u_ambiguous(ip):
         out2 = ip.call(method(ip, iface, "update_state"), [back, s], {})
         ref = ip.call(method(ip, iface, "update_state"), [{}, s], {})
         c.oblige(f"get_put_is_noop.{key}", all(ip.to_U(out2[k_].f["value"]).eq(ip.to_U(ref[k_].f["value"])) for k_ in ref if ref[k_].f["value"] is not None))
+
+
+# the caching protocol this property's statement rests on (values and densities "after updating")
+from contracts.c01 import register_cache_core  # noqa: E402
+
+register_cache_core("C03")
